@@ -371,7 +371,7 @@ type nfa struct {
 	n     int
 }
 
-func (a *nfa) newState() int { a.n++; return a.n - 1 }
+func (a *nfa) newState() int   { a.n++; return a.n - 1 }
 func (a *nfa) addEps(f, t int) { a.eps[f] = append(a.eps[f], t) }
 func (a *nfa) addTrans(f int, s string, t int) {
 	if a.trans[f] == nil {
